@@ -266,7 +266,9 @@ class World(object):
                 cpath = self.cache_path(n)
                 os.makedirs(os.path.dirname(cpath), exist_ok=True)
                 with open(cpath, "wb") as fobj:
-                    fobj.write(self.content(n))
+                    # a stale copy holds an older version of the resource: serving it instead of
+                    # fetching again shows in the content
+                    fobj.write(self.content(n, "" if state.startswith("warm") else "-old"))
                 age = 3600 if state.startswith("warm") else 2 * 86400
                 os.utime(cpath, (now - age, now - age))
 
@@ -631,7 +633,7 @@ class Model(object):
                     self.src[n] = ("ok", "")
             if state != "empty" and kind == "ok":
                 age = 3600 if state.startswith("warm") else 2 * 86400
-                self.cache[n] = (("ok", ""), self.now - age)
+                self.cache[n] = (("ok", "" if state.startswith("warm") else "-old"), self.now - age)
 
     def cache_load(self, n, reload):
         ent = self.cache.get(n)
